@@ -3,6 +3,7 @@ package harness
 import (
 	"context"
 	"fmt"
+	"io"
 	"net"
 	"time"
 
@@ -235,3 +236,12 @@ func SendEnv(ctx context.Context, t lime.Transport, e *Env) error {
 func EncodedLen(e *Env) int { return len(e.Canon) + 1 }
 
 func tcpAddr(port int) *net.TCPAddr { return &net.TCPAddr{IP: net.IPv4(127, 0, 0, 1), Port: port} }
+
+// discardTrace is a lime.TraceWriter that throws the trace away: configuring one changes how the
+// TCP transport layers its readers and writers, nothing else.
+type discardTrace struct{ send, recv io.Writer }
+
+func newDiscardTrace() lime.TraceWriter { return &discardTrace{send: io.Discard, recv: io.Discard} }
+
+func (d *discardTrace) SendWriter() *io.Writer    { return &d.send }
+func (d *discardTrace) ReceiveWriter() *io.Writer { return &d.recv }
